@@ -220,14 +220,17 @@ def run(ctx):
             r.check(f in tested, "check_meta_collisions/tests-%s" % f, tested[f].loc() if f in tested else where(cm), "the registered meta pattern %s() is compared with every user route" % f,
                     "the meta route %s() is registered (%s) but check_meta_collisions never compares it with the user's routes: a user route that also matches it is accepted" % (f, loc))
         # a positive test makes the check fail: the route is recorded and a non-empty record is an error
-        pushes = [c for c in cm.calls if c.name == "push" and "routes" == describe_operand(cm, c.args[0]).lstrip("&").replace("mut ", "")]
+        # the record of colliding routes is the vector whose emptiness decides the result (its name is a local's)
+        ie = [c for c in cm.calls if c.name == "is_empty" and "Vec" in c.defpath]
+        rec_local = cm.copy_root(ie[0].args[0]) if len(ie) == 1 else None
+        pushes = [c for c in cm.calls if c.name == "push" and rec_local is not None and cm.copy_root(c.args[0]) == rec_local]
         heads = {c.block for c in cm.calls if c.name == "next" and "self.routes" in describe_operand(cm, c.args[0])}
         for f, c in sorted(tested.items()):
             ok = bool(heads) and any(cm.reaches(tr, heads) and cm.must_pass([tr], {p_.block for p_ in pushes}, targets=heads)[0] for tr, fa, b in cm.bool_switches_from(c))
             r.check(ok, "check_meta_collisions/%s-collision-recorded" % f, c.loc(), "when a route is ambiguous with %s() it is recorded before the next route is examined" % f, "a positive are_ambiguous(%s(), route) does not record the route: the check can still return Ok" % f)
         errs = [i for i, j, p_, rv, line in cm.assigns() if describe_rvalue(cm, rv).startswith("Result::Err(")]
         oks = [i for i, j, p_, rv, line in cm.assigns() if describe_rvalue(cm, rv).startswith("Result::Ok(")]
-        r.check(len(errs) == 1 and len(oks) == 1 and any(d.startswith("is_empty(routes)") and l == "true" for d, l, _ in dom_guards(cm, oks[0])) and any(d.startswith("is_empty(routes)") and l == "false" for d, l, _ in dom_guards(cm, errs[0])),
+        r.check(len(errs) == 1 and len(oks) == 1 and len(ie) == 1 and bool(pushes) and any(d.startswith("is_empty(") and l == "true" for d, l, _ in dom_guards(cm, oks[0])) and any(d.startswith("is_empty(") and l == "false" for d, l, _ in dom_guards(cm, errs[0])),
                 "check_meta_collisions/Err-iff-any-recorded", where(cm), "Err(AmbiguousRoutes) exactly when a route was recorded")
         callers = [(b, c) for b in sa.all_bodies() for c in b.calls if c.name == "check_meta_collisions"]
         r.check(len(callers) >= 1 and all(b.try_edges(c) is not None for b, c in callers), "build_server/collision-check-is-propagated", callers[0][1].loc() if callers else "-", "the server builder runs the check and propagates its error with ?", "check_meta_collisions is not called, or its result is dropped")
